@@ -98,6 +98,16 @@ check("C20", "exploration",
       "deterministic simulation with fault injection: seeded initial-state/fault/crash search over repeated init runs, per-step invariants and end-state oracles",
       "§7 C20")
 
+check("C08", "exploration",
+      "Seeded deterministic simulation of teardown in W-claim: real definition/offered (XRD) controllers, real claim and XR reconcilers, with the Kubernetes garbage collector and the API server's CRD instance cleanup as interleaved actors. "
+      "Users delete claims (Background/Foreground policy), XRs and the XRD at arbitrary steps; a third party strips finalizers of terminating claims and XRs; API errors, lost replies, conflicts and crashes at any call. "
+      "Judged at the commit of each relevant write (ordered write log): the claim finalizer is removed only when the bound XR is absent or (Background) already marked deleted, and absent under Foreground; "
+      "a CRD delete by an XRD controller commits only with zero instances in the store and after SimEngine.Stop of the serving controller; during XRD teardown a controller is stopped only with zero instances; "
+      "an XRD finalizer is removed only when its CRD is absent or not controlled by the XRD.",
+      TB + " Claimed clauses: claim/XR/XRD ordering. The package-revision/lock clause and the composed-Usage clause of the statement are not decided by this check yet. Bounded liveness of teardown is counted, not judged.",
+      "deterministic simulation with fault injection: seeded schedule/fault/crash search, ordering oracles over the committed write log and engine stop events",
+      "§7 C08")
+
 def main():
     props = [json.loads(l)["id"] for l in open(os.path.join(V, "properties.jsonl"))]
     na = []
